@@ -13,6 +13,7 @@ is W6's `edit` when the decision is the element-name stand-in.
 import RioModel.Proofs.FilterDom
 import RioModel.Model.FilterHtml
 import RioModel.Proofs.FilterDomTok
+import RioModel.Proofs.FilterDomLaws
 set_option linter.unusedSimpArgs false
 set_option linter.unusedVariables false
 
@@ -281,6 +282,75 @@ theorem nest_simple : ∀ n, simpleN exVocab (nest n) = true
 example (n : Nat) : htmlTokenize (serializeList [nest n]) = (tokensOfList textToks [nest n], []) :=
   tokenize_serialize [nest n] (by simp [simpleL, nest_simple]) (by cases n <;> rfl)
 
+
+/-! ### byte level, universal: the `Simple` grammar with arbitrary tag names and attribute texts -/
+
+/-- **`tokenize (serialize d) = tokensOf d` for every `Simple` document** (`SimpleL simpleLaws`,
+Proofs/FilterDomUniv.lean + FilterDomLaws.lean): any nesting and size;
+* element names: a letter followed by letters / digits, any case (the node name is the lower-cased display name);
+* attribute text: any sequence of (white space, key, nothing | `=`unquoted | `="…"` | `='…'`) + optional trailing white
+  space, keys free of white space `/ = >`, unquoted values free of white space and `>`, not starting with a quote nor
+  ending with `/`; for `/>` the last attribute is quoted or white space precedes the solidus;
+* ordinary elements (normal, void, self-closing) have a name outside the raw-text table; raw-text elements (script, style,
+  title, textarea, …, not plaintext) hold content free of `<`;
+* comments `<!--…-->` with a body free of `>` and `!`, doctype declarations (`<!` + any case variant of DOCTYPE + text free of `>` + `>`);
+* text nodes non-empty and free of `<`, no two adjacent — also as the LAST node of the document.
+Proved from W5's closed forms of the tokenizer's readers (Proofs/HtmlClosed*.lean) by induction over the document with
+`tokenize_append` and `tokenize_text_then_tag`; no vocabulary, no evaluation. -/
+theorem tokenize_serialize_universal (doc : List Node) (hs : SimpleL simpleLaws doc) :
+    htmlTokenize (serializeList doc) = (tokensOfList vtU doc, []) :=
+  tokenize_serialize_of_laws simpleLaws doc hs
+
+/-- **End to end, universal**: for every `Simple` document (valid UTF-8) and every filter in its domain, the chain model
+with the C16 tokenizer — `FilterBodyAction::new`, one `filter` call, `end` — emits the serialisation of the reference
+edit.  No hypothesis about the tokenizer, no vocabulary restriction. -/
+theorem end_to_end_universal (ev : Bytes → Bytes → Bool) (lower : String → String) (doc : List Node) (f : BodyFilter)
+    (hs : SimpleL simpleLaws doc)
+    (hu : utf8Split (serializeList doc) = some (serializeList doc, []))
+    (hdom : InDomain htmlTokenize vtU doc f) :
+    (Chain.new noCodec lower [f] [] : Chain Unit Unit).run htmlTokenize ev noCodec [serializeList doc] =
+      serializeList (editD (decOf ev) doc f) :=
+  filter_spec htmlTokenize ev vtU lower vtU_lossless doc f hdom (tokAgree_of_laws simpleLaws doc hs hu)
+
+/-- … and for several filters, when every intermediate document is again `Simple` (`StepsSimple`). -/
+theorem compose_universal (ev : Bytes → Bytes → Bool) (lower : String → String) (doc : List Node)
+    (fs : List BodyFilter) (h : StepsSimple simpleLaws ev doc fs) :
+    (Chain.new noCodec lower fs [] : Chain Unit Unit).run htmlTokenize ev noCodec [serializeList doc] =
+      serializeList (editAllD (decOf ev) doc fs) :=
+  filters_compose htmlTokenize ev vtU lower vtU_lossless doc fs (stepsOK_of_simple simpleLaws ev fs doc h)
+
+/-- non-vacuity: a doctype declaration, an upper-case `HTML` element with a quoted `>` in an attribute value, an
+unquoted and a bare attribute, a raw-text element (`title` holding `a &amp; b`), a comment, a `p` with text, a
+self-closing `br` with white space before the solidus, text before the end tag, and a newline as the very last node — is
+`Simple`. -/
+def exSimple : List Node :=
+  [Node.verb [60, 33, 68, 79, 67, 84, 89, 80, 69, 32, 104, 116, 109, 108, 62] [],
+   Node.el [104, 116, 109, 108] [72, 84, 77, 76] [32, 108, 97, 110, 103, 61, 34, 97, 62, 98, 34, 32, 120, 61, 49, 32, 104, 105, 100, 100, 101, 110] .normal
+     [Node.el [116, 105, 116, 108, 101] [116, 105, 116, 108, 101] [] .raw [Node.verb [97, 32, 38, 97, 109, 112, 59, 32, 98] []],
+      Node.verb [60, 33, 45, 45, 32, 99, 32, 45, 45, 62] [],
+      Node.el [112] [112] [] .normal [Node.verb [104, 105] []],
+      Node.el [98, 114] [98, 114] [32] .selfClosing [],
+      Node.verb [116, 97, 105, 108] []],
+   Node.verb [10] []]
+
+theorem exSimple_simple : SimpleL simpleLaws exSimple := by
+  unfold exSimple
+  simp only [SimpleL, SimpleN, simpleLaws, isTextB]
+  refine ⟨Or.inr (Or.inr ⟨[68, 79, 67, 84, 89, 80, 69], [32, 104, 116, 109, 108], by decide, by decide⟩), by decide, ⟨rfl, ?_, ?_, ?_⟩, by decide,
+    Or.inl ⟨by decide, by decide⟩, trivial, trivial⟩
+  · exact ⟨by decide, by decide,
+      [⟨[32], [108, 97, 110, 103], .dq [97, 62, 98]⟩, ⟨[32], [120], .unq [49]⟩, ⟨[32], [104, 105, 100, 100, 101, 110], .none⟩], [], by decide, by decide, by decide⟩
+  · exact (by decide : Rio.Html.Tokenizer.nameOK [72, 84, 77, 76] = true)
+  · refine ⟨⟨rfl, ?_⟩, by decide, Or.inr (Or.inl ⟨[32, 99, 32], by decide, by decide⟩), by decide,
+      ⟨rfl, ⟨by decide, by decide, [], [], by decide, by decide, by decide⟩, (by decide : Rio.Html.Tokenizer.nameOK [112] = true),
+        Or.inl ⟨by decide, by decide⟩, trivial, trivial⟩, by decide,
+      ⟨rfl, by decide, by decide, [], [32], by decide, by decide, by decide, by decide⟩, by decide,
+      Or.inl ⟨by decide, by decide⟩, trivial, trivial⟩
+    exact ⟨by decide, by decide, by decide, ⟨[], [], by decide, by decide, by decide⟩, by decide⟩
+
+example : htmlTokenize (serializeList exSimple) = (tokensOfList vtU exSimple, []) :=
+  tokenize_serialize_universal exSimple exSimple_simple
+
 /-! ### the excluded points are real (kernel-checked on the chain model with the tokenizer of C16) -/
 
 /-- `<a><b></b><b></b><b></b></a>` -/
@@ -363,10 +433,9 @@ theorem reference_is_edit (doc : List Node) (fs : List BodyFilter) :
 
 /-! ### non-vacuity: an end-to-end instance with the tokenizer model of C16, by kernel evaluation -/
 
-/-- `<!Node.verb [60, 33, 68, 79, 67, 84, 89, 80, 69, 32, 104, 116, 109, 108, 62] [],
-   Node.el [104, 116, 109, 108] [72, 84, 77, 76] [32, 108, 97, 110, 103, 61, 34, 97, 62, 98, 34] .normal [Node.el [104, 101, 97, 100] [104, 101, 97, 100] [] .normal [Node.el [109, 101, 116, 97] [109, 101, 116, 97] [32, 99, 104, 97, 114, 115, 101, 116, 61, 117, 116, 102, 45, 56] .void [], Node.el [116, 105, 116, 108, 101] [116, 105, 116, 108, 101] [] .raw [Node.verb [97, 32, 38, 108, 116, 59, 32, 98] []]], Node.el [98, 111, 100, 121] [98, 111, 100, 121] [32, 99, 108, 97, 115, 115, 61, 39, 120, 39] .normal [Node.verb [60, 33, 45, 45, 32, 60, 109, 97, 105, 110, 62, 32, 45, 45, 62] [], Node.el [109, 97, 105, 110] [109, 97, 105, 110] [] .normal [Node.el [112] [112] [] .normal [Node.verb [111, 110, 101] []], Node.el [98, 114] [98, 114] [] .selfClosing [], Node.el [112] [80] [32, 105, 100, 61, 34, 50, 34] .normal [Node.verb [116, 119, 111] []]], Node.el [115, 116, 121, 108, 101] [115, 116, 121, 108, 101] [] .raw [Node.verb [112, 32, 62, 32, 97, 32, 123, 125, 32, 47, 42, 32, 60, 109, 97, 105, 110, 62, 32, 42, 47] []]]],
-   Node.verb [10] []TYPE html><HTML lang="a>b"><head><meta charset=utf-8><title>a &lt; b</title></head><body class='x'>`
-`<!-- <main> --><main><p>one</p><br/><P id="2">two</P></main><style>p > a {} /* <main> */</style></body></HTML>` + newline
+/-- a doctype declaration; `HTML` (upper case) with `lang="a>b"`; `head` with a void `meta charset=utf-8` and a raw-text
+`title` holding `a &lt; b`; `body class='x'` with a comment holding `<main>`, a `main` with `p`, a self-closing `br`, a
+mixed-case `P id="2"`, and a raw-text `style` holding `p > a {} /* <main> */`; a trailing newline
 (a `script` element would do as well for the theorem, but the kernel does not reduce the script sub-automaton of
 the tokenizer model) -/
 def exDoc : List Node :=
